@@ -23,6 +23,12 @@ def generate(rng, tier, idx):
     ops.append({"op": "dump", "path": path})
     ops.append({"op": "restart", "path": path, "via": pick(rng, ["path", "handle", "loads"]), "offset": rng.randint(0, 999)})
     ops.append({"op": "restart", "path": path, "via": "path"})
+    if rng.random() < 0.35:
+        # the reader goes on adding WITHOUT saving; another reader (and then a third) opens the same, unchanged file: what it
+        # gets is what is on disk, not what the first reader holds in memory
+        for _ in range(rng.randint(1, 2)):
+            ops.append(gen_mf.ADDERS[machine](rng, invalid=0))
+            ops.append({"op": "restart", "path": path, "via": pick(rng, ["path", "path", "handle"]), "offset": rng.randint(0, 99)})
     _machine = machine
     if rng.random() < 0.25:
         # a bystander object with other content lives next to the main one
